@@ -211,17 +211,22 @@ OnExiting(s) ==
     [] OTHER -> Ok(s, None)
 
 \* Process.on_terminated -> close() -> on_close: cleanups (exceptions swallowed), callbacks dropped
-OnTerminated(s) ==
+\* Process.close() -> on_close: cleanups (unsubscribe rpc/broadcast, then the user's; a raising cleanup is logged and
+\* swallowed), the state-event callbacks are dropped, _closed = True; the user's on_close override may raise
+CloseOp(s) ==
   IF s.closed THEN Ok(s, None)
-  ELSE LET c  == Hook(Note([s EXCEPT !.subs = FALSE], <<"cleanup">>), "cleanup")   \* cleanups: unsubscribe (rpc, broadcast), then the user's; a raising cleanup is logged and swallowed
+  ELSE LET c  == Hook(Note([s EXCEPT !.subs = FALSE], <<"cleanup">>), "cleanup")
            s1 == [c.s EXCEPT !.closed = TRUE, !.cleaned = @ + 1]
-           \* F8: termination releases a step that is blocked on the pause future (the future is resolved, the
-           \* process stays "paused"); a task blocked on the waiting future is not released: known finding D7
-           s1r == IF "F8" \in Fixes /\ s1.pausedF = "pending"
-                  THEN Wake([s1 EXCEPT !.pausedF = "released"], "awaitPaused") ELSE s1
+       IN Hook(s1, "on_close")
+
+\* Process.on_terminated: release a step blocked on the pause future (F8), then close()
+OnTerminated(s) ==
+       LET \* F8: termination releases a step that is blocked on the pause future (the future is resolved, the
+           \* process stays "paused"); a task still blocked on a waiting future is not released: known finding D7
+           s1r == IF "F8" \in Fixes /\ s.pausedF = "pending"
+                  THEN Wake([s EXCEPT !.pausedF = "released"], "awaitPaused") ELSE s
            blocked == s1r.task.pc \in {"awaitPaused", "awaitWF"} /\ ~s1r.task.woken
-           s2 == IF blocked THEN Dev(s1r, "D7") ELSE s1r
-       IN Hook(s2, "on_close")
+       IN CloseOp(IF blocked THEN Dev(s1r, "D7") ELSE s1r)
 
 (* ----------------------------------------------------------------------------------------------- *)
 (* StateMachine.transition_to                                                                      *)
@@ -530,8 +535,12 @@ Advance(s) ==
     [] s.task.pc = "inUser" ->
          IF s.task.k > 1 THEN [s EXCEPT !.task.k = @ - 1, !.sched = Append(@, "task")]
          ELSE AfterExec(Expecting(s, s.task.fn), StepReturn(s, s.task.fn))
-    [] s.task.pc = "awaitPaused" ->       \* the gate is an `if`: a pause issued after the play is not seen
-         IF "F8" \in Fixes THEN Advance([s EXCEPT !.task.pc = "top"])
+    [] s.task.pc = "awaitPaused" ->       \* F8: the gate is a loop and a terminated process leaves step(); the closedness
+                                          \* test (ensure_not_closed) was made when step() was called, not here
+         IF "F8" \in Fixes
+         THEN (IF s.st \in Terminal THEN Advance([s EXCEPT !.task.pc = "top"])
+               ELSE IF s.pausedF = "pending" THEN [s EXCEPT !.task.woken = FALSE]
+               ELSE Advance([s EXCEPT !.stepping = TRUE, !.task.pc = "exec"]))
          ELSE Advance([(IF s.pausedF # "none" THEN Dev(s, "D6") ELSE s) EXCEPT !.stepping = TRUE, !.task.pc = "exec"])
     [] s.task.pc = "awaitWF" ->           \* continues inside the *old* Waiting.execute
          IF s.wf.st = "result"
@@ -675,6 +684,10 @@ Deliver(s, rdy, kind, intent, text) ==
            rdy |-> Append(rdy, "rpcT" \o ToString(i))]
 EnvRpc(intent, text)   == Offered("rpc") /\ S.comm /\ Env(Deliver(S, ready, "rpc", intent, text))
 EnvBcast(intent, text) == Offered("bcast") /\ S.comm /\ Env(Deliver(S, ready, "bcast", intent, text))
+\* the user closes a process ("should not be run any more"); stepping a closed live process raises ClosedError, and
+\* transitions made afterwards find no event callbacks (deviation D11: label changes, future and listeners do not)
+StepClose(s, rdy) == LET r == CloseOp(s) IN Out2(Note(r.s, <<"call", "close", None, r.ret, r.exc, "env">>), rdy)
+EnvClose          == Offered("close") /\ Env(StepClose(S, ready))
 EnvSave           == Offered("save") /\ ~S.stepping /\ Env([s |-> TakeSnapshot(S), rdy |-> ready])
 EnvRestore        == Offered("restore") /\ S.snap.has /\ Env([s |-> Restore(S), rdy |-> <<"task">>])
 RunHandle         == ready # <<>> /\ LET r == StepRun(S, ready) IN S' = r.s /\ ready' = r.rdy /\ UNCHANGED budget
@@ -698,7 +711,7 @@ Next ==
   \/ EnvFail
   \/ EnvCancel
   \/ EnvCallSoon("ok") \/ EnvCallSoon("raise")
-  \/ EnvSave \/ EnvRestore
+  \/ EnvSave \/ EnvRestore \/ EnvClose
   \/ \E i \in 1..MaxAwaitables, kind \in OutcomeKinds : EnvComplete(i, Outcome(i, kind))
   \/ \E m \in RpcMessages : EnvRpc(m[1], m[2])
   \/ \E m \in BcastMessages : EnvBcast(m[1], m[2])
